@@ -5,7 +5,7 @@
 EXTENDS Cleaner, TLC, Json
 
 CONSTANTS MaxRecs, MaxBatch, MaxOps, MaxEpoch, CapSet, KeySet, AgeSet, MsgsSet, BytesSet,
-          CompactSet, SkewSet, BigSet, MaxCleans, MaxTicks, UseWindow, UseReopen, UseEpochs
+          CompactSet, LagSet, BigSet, MaxCleans, MaxTicks, UseWindow, UseReopen, UseEpochs
 VARIABLES last, nRecs, nOps, nCleans, nTicks
 mcvars == <<cvars, last, nRecs, nOps, nCleans, nTicks>>
 
@@ -29,11 +29,11 @@ MCInit ==
   /\ last = [a |-> "Open"] /\ nRecs = 0 /\ nOps = 0 /\ nCleans = 0 /\ nTicks = 0
 
 \* a batch of n records with keys ks[1..n]; the clock advances by one per record,
-\* timestamps = clock + skew (skew < 0: non-monotone write times)
-MCAppend(n, ks, big, de, skew) ==
+\* timestamps = clock - lag (lag > 0: non-monotone write times)
+MCAppend(n, ks, big, de, lag) ==
   /\ nRecs + n <= MaxRecs
   /\ CurEpoch + de <= MaxEpoch
-  /\ LET recs == [i \in 1..n |-> Rec(nRecs + i, ks[i], big /\ i = 1, CurEpoch + de, now + i + skew)] IN
+  /\ LET recs == [i \in 1..n |-> Rec(nRecs + i, ks[i], big /\ i = 1, CurEpoch + de, now + i - lag)] IN
      /\ CAppend(recs)
      /\ Step([a |-> "Append", recs |-> recs])
   /\ nRecs' = nRecs + n
@@ -70,9 +70,9 @@ MCReopen == UseReopen /\ CReopen /\ Step([a |-> "Reopen"]) /\ UNCHANGED <<nRecs,
 Room == pend.on => nOps < MaxOps - 1
 
 MCNext ==
-  \/ Room /\ \E n \in 1..MaxBatch, ks \in [1..MaxBatch -> KeySet], big \in BigSet, de \in 0..1, skew \in SkewSet :
+  \/ Room /\ \E n \in 1..MaxBatch, ks \in [1..MaxBatch -> KeySet], big \in BigSet, de \in 0..1, lag \in LagSet :
         /\ \A i \in n + 1..MaxBatch : ks[i] = ks[1]        \* unused positions do not multiply choices
-        /\ MCAppend(n, ks, big, de, skew)
+        /\ MCAppend(n, ks, big, de, lag)
   \/ Room /\ \E h \in (hw + 1)..Newest : MCSetHW(h)
   \/ Room /\ MCNewLeaderEpoch
   \/ Room /\ \E d \in 1..2 : MCTick(d)
